@@ -398,11 +398,13 @@ def check_scenario(col, rnd, pool, kind, n, sseed):
 # ------------------------------------------------------------------------------------------------ B round trip
 def check_roundtrip(col, candles, stream_text):
     variants = [("plain", {}), ("timeframe", {"timeframe": "T5"}), ("renamed", {"fullname_override": "custom", "name_suffix": "x"}),
+                ("falsy-fields", {"round_value": 0}),
                 ("fill+lifespan+HA", {"timeframe": "T10", "timeframe_fill": True, "candles_lifespan": timedelta(hours=2),
                                       "candlestick_type": "HA"})]
     extra_amorph = [("Amorph[doji]", lambda **e: INDICATOR_MAP["Amorph"](analysis=PATTERN_MAP["doji"], **e)),
                     ("Amorph[inv_hammer]", lambda **e: INDICATOR_MAP["Amorph"](analysis=PATTERN_MAP["inv_hammer"], **e)),
-                    ("Amorph[positive]", lambda **e: INDICATOR_MAP["Amorph"](analysis=MOVEMENT_MAP["positive"], **e))]
+                    ("Amorph[positive]", lambda **e: INDICATOR_MAP["Amorph"](analysis=MOVEMENT_MAP["positive"], **e)),
+                    ("Amorph[highest]", lambda **e: INDICATOR_MAP["Amorph"](analysis=MOVEMENT_MAP["highest"], indicator="close", length=3, **e))]
     makers = [(key, (lambda key=key, **e: build(key, **e))) for key, cls in INDICATOR_MAP.items() if small_config(cls) is not None]
     for key, mk in makers + extra_amorph:
         for vname, extra in variants:
